@@ -214,6 +214,27 @@ func run(c *fw.Ctx) {
 		}
 	}
 	rec(0)
+	// E2b: many scanner errors inside ONE token (the error list has a cap; the first token is scanned by the parser's
+	// constructor, later ones inside ParseFile)
+	c.Family("E2b:bad-runs", "token opener {\", `, ', //, /*, none} x run of 1..13, 20, 100 bytes of {NUL, 0xff, 0x80, BOM} x closed or not x first token or after `a := `")
+	for _, open := range []struct{ o, cl string }{{"\"", "\""}, {"`", "`"}, {"'", "'"}, {"//", "\n"}, {"/*", "*/"}, {"", ""}} {
+		for _, bad := range []string{"\x00", "\xff", "\x80", "\xef\xbb\xbf"} {
+			for _, k := range []int{1, 2, 3, 4, 5, 6, 7, 8, 9, 10, 11, 12, 13, 20, 100} {
+				for _, closed := range []bool{true, false} {
+					for _, pre := range []string{"", "a := ", "\n\n"} {
+						if !c.Next() {
+							continue
+						}
+						src := pre + open.o + strings.Repeat(bad, k)
+						if closed {
+							src += open.cl
+						}
+						e.try(fmt.Sprintf("badrun:%q", src), src, basic, false)
+					}
+				}
+			}
+		}
+	}
 	// E3
 	all := allConfigs()
 	c.Family("E3:corpus-x-options", fmt.Sprintf("C02 and C03 (cores <= 2) corpora x %d option combinations", len(all)))
@@ -289,6 +310,17 @@ func run(c *fw.Ctx) {
 			c.Nontrivial()
 		}
 	}
+}
+
+// fragments that fail to compile AFTER having changed the session's compile-time state (module store, symbol table,
+// constants): a later fragment meets whatever the failed one left behind
+func init() {
+	for _, eff := range []string{"m := import(\"m1\")", "m := import(\"bm\")", "q := 1", "const kq = 2", "fq := func() { return 1 }", "global gq", "[import(\"m1\"), import(\"bm\")]"} {
+		for _, bad := range []string{"nosuchname", "zz = ", "return 1 +"} {
+			fragments = append(fragments, eff+"; "+bad)
+		}
+	}
+	fragments = append(fragments, "import(\"m1\").x", "import(\"bm\").a", "m := import(\"m1\"); m.f()")
 }
 
 func evalPair(f1, f2 string, noopt bool) (pan any, problem string) {
